@@ -25,9 +25,9 @@ if rc != 0:
 for c in man["checks"]:
     pid = c["property_id"]
     try:
-        vlib.build_driver(pid)
         sys.path.insert(0, "props")
         mod = __import__(pid.lower())
+        vlib.build_driver(getattr(mod, "DRIVER_PID", pid))
         for prof in getattr(mod, "PROFILES", ["release"]):
             vlib.build_harness(getattr(mod, "HARNESS_BIN", pid.lower()), prof)
         print("built", pid)
